@@ -1150,6 +1150,7 @@ int main(int argc, char** argv) {
     // --sanitizer-pass: the reduced scenario set of the AddressSanitizer build (memory errors are invisible otherwise):
     // everything with a shared input (callback lists, DynamicCombinator) and the iterator forms
     if (sanitizer_pass && sc.shape.find_first_not_of('u') == std::string::npos && sc.form != "dynamic") continue;
+    if (sanitizer_pass && sc.n >= 4) continue;  // five fibers under ASan are slow; the plain explorer covers them
     gCurHeader = sc.Header();
     // every execution that ends in std::terminate leaks its parked fibers (their stacks are mmap'ed and the number of
     // mappings of a process is limited).  The scenarios of the former defect D2 (tuple form, FirstFail, two failures; fixed by
